@@ -13,6 +13,7 @@
 #include <vector>
 
 #include "../common/equals.h"
+#include "../common/verif_hooks.h"
 
 /*
  * SymmetricTridiagonalSolver is a class for solving symmetric tridiagonal systems of linear equations.
@@ -280,6 +281,7 @@ const T& SymmetricTridiagonalSolver<T>::main_diagonal(const int index) const
 {
     assert(index >= 0);
     assert(index < this->matrix_dimension_);
+    VERIF_TOUCH(&this->main_diagonal_values_[index], false);
     return this->main_diagonal_values_[index];
 }
 template <typename T>
@@ -287,6 +289,7 @@ T& SymmetricTridiagonalSolver<T>::main_diagonal(const int index)
 {
     assert(index >= 0);
     assert(index < this->matrix_dimension_);
+    VERIF_TOUCH(&this->main_diagonal_values_[index], true);
     return this->main_diagonal_values_[index];
 }
 
@@ -295,6 +298,7 @@ const T& SymmetricTridiagonalSolver<T>::sub_diagonal(const int index) const
 {
     assert(index >= 0);
     assert(index < this->matrix_dimension_ - 1);
+    VERIF_TOUCH(&this->sub_diagonal_values_[index], false);
     return this->sub_diagonal_values_[index];
 }
 template <typename T>
@@ -302,6 +306,7 @@ T& SymmetricTridiagonalSolver<T>::sub_diagonal(const int index)
 {
     assert(index >= 0);
     assert(index < this->matrix_dimension_ - 1);
+    VERIF_TOUCH(&this->sub_diagonal_values_[index], true);
     return this->sub_diagonal_values_[index];
 }
 
@@ -309,12 +314,14 @@ template <typename T>
 const T& SymmetricTridiagonalSolver<T>::cyclic_corner_element() const
 {
     assert(is_cyclic_);
+    VERIF_TOUCH(&this->cyclic_corner_element_, false);
     return this->cyclic_corner_element_;
 }
 template <typename T>
 T& SymmetricTridiagonalSolver<T>::cyclic_corner_element()
 {
     assert(is_cyclic_);
+    VERIF_TOUCH(&this->cyclic_corner_element_, true);
     return this->cyclic_corner_element_;
 }
 
@@ -324,8 +331,11 @@ void SymmetricTridiagonalSolver<T>::solveInPlace(T* sol_rhs, T* temp1, T* temp2)
     assert(matrix_dimension_ >= 2);
     assert(sol_rhs != nullptr);
     assert(temp1 != nullptr);
+    VERIF_RANGE(sol_rhs, matrix_dimension_, true);
+    VERIF_RANGE(temp1, matrix_dimension_, true);
     if (is_cyclic_) {
         assert(temp2 != nullptr);
+        VERIF_RANGE(temp2, matrix_dimension_, true);
         solveSymmetricCyclicTridiagonal(sol_rhs, temp1, temp2);
     }
     else {
